@@ -13,7 +13,9 @@ MANIFEST = dict(
     technique='Rocq proof generic over the escape tables (induction over the string; tables AND the shape of escape_text regenerated '
               'from tokenizer.py, side conditions kernel-checked; the loop of _handle_string read from the source as a decision table by '
               'abstract execution, proved equal to the hand model when its rows are the model\'s) + exhaustive code-point / small-scope correspondence + in-kernel '
-              'small-scope enumeration of the model of the code + oracle search',
+              'small-scope enumeration of the model of the code + oracle search (incl. histories: state carried from one tokenizer to the next); '
+              'round 4: _get_token / _handle_comment read from the source as decision trees proved equal to the hand model when they pass eight '
+              'boolean conditions, a state census, and the whole property in one theorem for the three functions as written',
     text='Theorems in Props/C02.v, for every string (list of code points), both multiline modes, every option vector with '
          'allow_escapes, any starting line and any text following the closing quote: tokenizing DQ+escape(s)+DQ yields exactly '
          'STRING s then EOF for ever (flat input and the chunked reader state of the real class, any chunking); the escaped '
@@ -27,6 +29,13 @@ MANIFEST = dict(
          'a backslash: 32 rows); a table of such rows has a meaning as a reader program (hs_interp), and if the rows are the model\'s '
          '(obligation handle_string_rows_are_the_model) that program IS the hand model handle_string on every input, flat or chunked '
          '(c02_handle_string_table_is_model*), so the inverse law holds for both functions as written (c02_inverse_as_written). '
+         'Round 4: _get_token and _handle_comment are executed on abstract values segment by segment (outer loop, four inner loops, entry of '
+         '_handle_comment, its two loops) into decision trees; if the trees compute the model\'s functions on every consistent abstract '
+         'environment (eight obligations) their interpretation IS the hand model get_token on every input, flat and chunked; '
+         'c02_property_as_written composes everything: pipeline read from escape_text + trees + rows of _handle_string, under the named '
+         'boolean conditions, give exactly STRING s then EOF for ever for every string, both modes and ANY chunking. A state census '
+         '(no data attribute bound in the class body, no self attribute / module name outside line_num, _last_was_cr, the options and the '
+         'reader read or written, constant tables never mutated) backs the premise that nothing outlives a call. '
          'The theorems are generic over the tables; the conditions '
          '(every escape decodes back, no symbol is a line feed, DQ/CR/backslash always escaped, LF escaped in single-line mode, '
          'DQ is not an operator) are discharged by vm_compute for the tables regenerated from the source on every run. '
@@ -35,8 +44,9 @@ MANIFEST = dict(
          'every code point 0..0x10FFFF in both modes and on all strings over that alphabet up to length 4; the string-reading '
          'loop of the model is compared with the real Tokenizer on every text DQ+w, w up to length 4, with and without escapes.',
     note='Trusted: Coq kernel + vm_compute (incl. primitive Uint63 for checksums), translate/c02_tables.py, translate/c02_hstring.py (the '
-         'abstract executor of the _handle_string loop body: fail-closed on anything outside its statement language), the hand model '
-         'Text/Tokenizer.v of _get_token (tied by exhaustive small-scope differential runs; _handle_string additionally by the table), CPython re/str '
+         'abstract executor of the _handle_string loop body: fail-closed on anything outside its statement language), translate/c02_gettoken.py '
+         '(the same for the segments of _get_token / _handle_comment, and the state census), the hand model '
+         'Text/Tokenizer.v (tied by exhaustive small-scope differential runs and now by the table / the trees read from the source), CPython re/str '
          '(a regex that is an alternation of single characters substitutes per character; str.replace is leftmost non-overlapping). '
          'The Cython twins (_tokenizer.pyx) cannot be built here and are not covered. Embedding in VMF/BSP/DMX files is '
          'covered only through the compositional theorem (any rest of input) and Tokenizer/Keyvalues.parse-level search.',
@@ -85,7 +95,7 @@ def oracle(s: str, multiline: bool, pre: str = '', post: str = '', cut: int | No
         with U.time_limit():
             return _oracle(s, multiline, pre, post, cut, bits)
     except U.ImplTimeout:
-        return f'hang: no result within {U.IMPL_LIMIT_S:.0f} s'
+        return f'hang: no result within {U.IMPL_LIMIT_S:.0f} s of CPU time'
 
 
 def _oracle(s: str, multiline: bool, pre: str, post: str, cut: int | None, bits: int) -> str | None:
@@ -134,7 +144,7 @@ def kv_oracle(s: str, multiline: bool) -> str | None:
         with U.time_limit():
             return _kv_oracle(s, multiline)
     except U.ImplTimeout:
-        return f'hang: no result within {U.IMPL_LIMIT_S:.0f} s'
+        return f'hang: no result within {U.IMPL_LIMIT_S:.0f} s of CPU time'
 
 
 def _kv_oracle(s: str, multiline: bool) -> str | None:
@@ -616,6 +626,7 @@ def _run(ck: Ck) -> None:
                'non-trivial = two different characters; distinct by full input')
     ck.trusted.append('hand-written model Text/Tokenizer.v (handle_string/get_token) and Text/Escape.v (tied by exhaustive small-scope and per-code-point differential runs on every run; handle_string also by the decision table read from the source)')
     ck.trusted.append('translate/c02_hstring.py: abstract execution of the loop body of Tokenizer._handle_string (fail-closed outside its statement language)')
+    ck.trusted.append('translate/c02_gettoken.py: abstract execution of the segments of Tokenizer._get_token / _handle_comment into decision trees, and the state census (fail-closed outside its statement language)')
     ck.trusted.append('harness/c02_util.py checksum mirror of Text/TokEnum.v (63-bit; a collision would hide a disagreement)')
     ck.assumptions.append('Python str = list of code points; re.sub over an alternation of single characters acts per character (exercised by the string correspondence)')
     ck.assumptions.append('pure-Python tokenizer only; the Cython twin _tokenizer.pyx cannot be built in this sandbox')
@@ -648,7 +659,7 @@ def _run(ck: Ck) -> None:
             'operators_name_known_tokens': 'operators_all_known',
         })
         handle_string_table(ck, ok_h)
-        U.get_token_tree_obligations(ck, ok_g)
+        U.get_token_tree_obligations(ck, ok_g, c02_property=ok_h)
         model_counterexamples(ck)
         corr_codepoints(ck)
         corr_escape_strings(ck, escalate)
